@@ -81,8 +81,9 @@ class Tracker:
 class GdbTracker(Tracker):
     """the same comparisons in GDB mode: every spec becomes a libwayland closure on the symbolic gdb stand-in and reaches the
     connection manager through the real plugin (breakpoint stop(), extract.py)"""
-    def __init__(self, vprefix=''):
+    def __init__(self, vprefix='', threads=None):
         from . import gdbsim
+        self.threads = threads or [1]
         self.gdbsim = gdbsim
         self.drv = gdbsim.Driver()
         self.cm = self.drv.cm
@@ -111,7 +112,11 @@ class GdbTracker(Tracker):
             ev = decl.is_event if decl is not None else False
             self.sides[conn] = 'client' if (spec['sent'] != ev) else 'server'
         n0 = len(self.drv.ctl.all_messages)
-        self.drv.deliver(self.gdbsim.closure_of_message(spec, self.sides[conn], conn, decl, self.vprefix))
+        c = self.gdbsim.closure_of_message(spec, self.sides[conn], conn, decl, self.vprefix)
+        # closures are dispatched on whatever thread the program uses (a warning may go to the error stream, nothing else changes)
+        c['thread'] = self.threads[len(self.lines) % len(self.threads)]
+        c['thread_name'] = None if c['thread'] != 1 else 'main'
+        self.drv.deliver(c)
         rec = self.world.step(spec)
         got = self.drv.ctl.all_messages[n0:]
         if len(got) != 1:
